@@ -29,7 +29,8 @@ IMPURE = ['std::time::*', 'std::thread::*', 'std::fs::*', 'std::env::*', 'std::n
 
 
 def has(og, pat):
-    return any(glob_match(pat, o) for o in og)
+    # a field path under the named origin also counts (getters spliced by the inliner make origins more precise)
+    return any(glob_match(pat, o) or (pat[-1] != '*' and glob_match(pat + '.*', o)) for o in og)
 
 
 def run(ctx):
